@@ -1,12 +1,22 @@
 import Driver.Util
 import GqlgenVerif.Model.Order
 import GqlgenVerif.Model.Naming
+import GqlgenVerif.Model.CyclePass
+import GqlgenVerif.Model.Imports
+import GqlgenVerif.Gen.ResolverImports
 /-! Line-protocol driver for C18: the order model on the harness's cases.
 
   order <decl>|<decl>…   the package-level identifiers of the model file in the order the generator must write them
                          (interfaces, models, enums each sorted by name; enum = type, constants, All… var), as
                          predicted from a schema summary given in ANY order (same decl syntax as driver_c17 `emit`)
   sort <hex>,<hex>…      `sort.Slice(…, Name <)` on names
+  cyc <model>|<model>…   modelgen's pointer decisions (`struct_fields_always_pointers: false`) for the generated structs
+                         given in ANY order: model = Name:field/Target/v,field/Target/o… (v = struct value field, plain
+                         ASCII names); answer Name:field=p|v|-,…;… sorted by name (p = value turned into a pointer,
+                         v = stays a value, - = was no value field); `cycraw` = the pass WITHOUT the sort
+  regen <own> <path=name;…> <path;…>   import aliases: first rendering (lookups in the given order from an empty table),
+                         then re-generation over that output ((*File).Imports as regenerated in Gen/ResolverImports
+                         re-reserves the file's imports, sorted by path) and the same lookups: `first=a,b second=a,b`
 -/
 open GqlgenVerif GqlgenVerif.Naming
 namespace Driver.C18
@@ -30,8 +40,46 @@ def parseDecl (s : String) : Option TypeDecl :=
     pure { kind := kind, name := ← ofHex n, impls := ← hexList impls, fields := fs, values := ← hexList values }
   | _ => none
 
+def asciiName (s : String) : List Nat := s.toList.map Char.toNat
+
+def parseCField (s : String) : Option CyclePass.CField :=
+  match s.splitOn "/" with
+  | [n, t, k] => some { name := asciiName n, target := asciiName t, val := k == "v" }
+  | _ => none
+
+def parseCModel (s : String) : Option CyclePass.CModel :=
+  match s.splitOn ":" with
+  | [n, fs] => do
+    let fields ← if fs = "" then some [] else (fs.splitOn ",").mapM parseCField
+    pure { name := asciiName n, fields := fields }
+  | _ => none
+
+def showCyc (input output : List CyclePass.CModel) : String :=
+  ";".intercalate (output.map fun m =>
+    Driver.ascii m.name ++ ":" ++ ",".intercalate (m.fields.map fun f =>
+      let was := (input.find? (·.name == m.name)).bind (fun a => (a.fields.find? (·.name == f.name)).map (·.val))
+      Driver.ascii f.name ++ "=" ++ (if was != some true then "-" else if f.val then "v" else "p")))
+
+def regen (own : String) (names : List (String × String)) (ps : List String) : String :=
+  let nameOf := fun p => ((names.find? (·.1 == p)).map (·.2)).getD p
+  let first := Imports.lookups nameOf own [] ps
+  let file := first.1.mergeSort (fun a b => !(b.path < a.path))
+  let second := Imports.lookups nameOf own (Imports.reReserve nameOf own Gen.ResolverImports.reserveAlias [] file) ps
+  "first=" ++ ",".intercalate first.2 ++ " second=" ++ ",".intercalate second.2
+
 def step (line : String) : String :=
   match line.splitOn " " with
+  | ["cyc", ms] =>
+    match (ms.splitOn "|").mapM parseCModel with
+    | some l => showCyc l (CyclePass.modelPointers l)
+    | none => "bad-op"
+  | ["cycraw", ms] =>
+    match (ms.splitOn "|").mapM parseCModel with
+    | some l => showCyc l (CyclePass.cyclePass l)
+    | none => "bad-op"
+  | ["regen", own, names, ps] =>
+    let ns := (names.splitOn ";").filterMap fun s => match s.splitOn "=" with | [a, b] => some (a, b) | _ => none
+    regen own ns (ps.splitOn ";")
   | ["order", ds] =>
     match (ds.splitOn "|").mapM parseDecl with
     | some ts => ",".intercalate ((inScope Scope.pkg (emittedModels ts).1).map toHex)
